@@ -17,8 +17,10 @@ func init() {
 			"(R3) every renameio.TempFile is followed by a deferred Cleanup registered before anything else, every success exit passes CloseAtomicallyReplace, and the data written goes to the pending file; " +
 			"(R4) the download is published only across: copy succeeded, byte count equals Content-Length, and no checksum mismatch under the 'require' policy. " +
 			"(R5) in the covered components no error of a step that produces or publishes file content (write, copy, sync, chmod, rename, the atomic helpers themselves) is discarded. " +
+			"(R6) errors turned into success: wherever the error of a content-producing or publishing step is tested and the function can still return success, the site is in a table with the exact tolerated condition - copyFromZipArchive tolerates only errors.Is(err, io.EOF) from CopyN, fstree.Put only a first write whose retry succeeded; the detached signature/index-cache writes and the post-publication chmod are named exceptions. " +
+			"(R7) size caps are never silent: after io.CopyN copied its full cap (no error) success is returned only across a further read that found io.EOF, and no io.LimitReader feeds a content-producing or publishing step. " +
 			"NOT decided: file-system semantics, crash states, concurrent readers, the run-time choice of a same-mount temp directory.",
-		Rules: []ruleFn{c17R1, c17R2, c17R3, c17R4, c17R5},
+		Rules: []ruleFn{c17R1, c17R2, c17R3, c17R4, c17R5, c17R6, c17R7},
 	})
 }
 
@@ -455,11 +457,26 @@ func isPathPlusConstSuffix(v ssa.Value) bool {
 	return ok && cst.Value != nil && len(constString(cst.Value)) > 0
 }
 
+// c17ContentStep: calls that produce or publish file content.
+func c17ContentStep(n string) (string, bool) {
+	targets := map[string]bool{"os.Rename": true, "os.File.Sync": true, "os.File.Write": true, "os.File.WriteString": true, "io.Copy": true, "io.CopyN": true,
+		"os.File.Chmod": true, "os.Chmod": true, "os.Symlink": true, "os.WriteFile": true, "os.MkdirAll": true, "os.Mkdir": true}
+	if targets[n] {
+		return n, true
+	}
+	if strings.HasPrefix(n, "utils/renameio.") || n == "database/storage/fstree.writeFile" ||
+		n == "utils.CreateAtomic" || n == "utils.CopyFileAtomic" || n == "utils.ReplaceFileAtomic" {
+		if strings.HasSuffix(n, ".Cleanup") {
+			return "", false // removing the temp file is best effort by design (R1/R3 cover its placement)
+		}
+		return n, true
+	}
+	return "", false
+}
+
 func c17R5(c *Ctx, r *Report) {
 	const rule = "C17-R5"
 	r.SetFloor(rule, 15)
-	targets := map[string]bool{"os.Rename": true, "os.File.Sync": true, "os.File.Write": true, "os.File.WriteString": true, "io.Copy": true, "io.CopyN": true,
-		"os.File.Chmod": true, "os.Chmod": true, "os.Symlink": true, "os.WriteFile": true, "os.MkdirAll": true, "os.Mkdir": true}
 	var fns []*ssa.Function
 	for _, fn := range c.AllFuncs() {
 		if inScope(short(fn.Pkg.Pkg.Path())) {
@@ -467,17 +484,6 @@ func c17R5(c *Ctx, r *Report) {
 		}
 	}
 	errUseRule(c, r, rule, fns, func(fn *ssa.Function, cc *ssa.CallCommon) (string, bool) {
-		n := calleeName(cc)
-		if targets[n] {
-			return n, true
-		}
-		if strings.HasPrefix(n, "utils/renameio.") || n == "database/storage/fstree.writeFile" ||
-			n == "utils.CreateAtomic" || n == "utils.CopyFileAtomic" || n == "utils.ReplaceFileAtomic" {
-			if strings.HasSuffix(n, ".Cleanup") {
-				return "", false // removing the temp file is best effort by design (R1/R3 cover its placement)
-			}
-			return n, true
-		}
-		return "", false
+		return c17ContentStep(calleeName(cc))
 	}, map[string]string{})
 }
